@@ -125,7 +125,14 @@ theorem C17_lock_progress (s : LSys) (hr : ∀ t ∈ s, disciplined t.prog = tru
 
 theorem C17_ops_disciplined :
     disciplined opIter = true ∧ disciplined opFlush = true ∧ disciplined opRotate = true ∧
-      disciplined opCompact = true := by decide
+      disciplined opCompact = true ∧ disciplined opCommit = true ∧ disciplined opRotFlush = true := by decide
+
+/-- a committer inside `apply` keeps the rotation out: while thread 0 sits between taking the active
+memtable's read lock and dropping it, thread 1's rotation (which needs the write lock) cannot start — the
+memtable a batch is being added to is not the one being rotated away and flushed -/
+theorem C17_apply_excludes_rotation :
+    let s : LSys := [{ prog := opCommit, pc := 1 }, { prog := opRotFlush, pc := 0 }]
+    blocked s 1 = true ∧ ((s.step 1)[1]?.map (·.pc)) = some 0 := by decide
 
 /-- the order used before the repair (immutable memtables before the manifest in the reader) is not
 disciplined, and with it a reader and a compaction reach a state in which both are blocked -/
